@@ -29,7 +29,7 @@ RULE = ("Engine 'differential': a drawn loader computation (asnumpy / average / 
         "acryo frame), task B runs to completion, A resumes; k is enumerated over every line-level point for all four models "
         "(cold lru caches) and strided for drawn cases (rotations, wedges, mixed operations, warm caches); both results "
         "must equal the sequential ones bitwise; the same with the loader's own lazy per-molecule tasks (rows of construct_dask / "
-        "construct_landscape, align tasks of construct_mapping_tasks; numpy and chunked tomograms). Engine 'stress' (thorough only): real preemption with a 1e-6 s switch interval. "
+        "construct_landscape, align tasks of construct_mapping_tasks; numpy and chunked tomograms). Engine 'alternate': the same task pairs with 2-8 hand-overs at drawn point budgets (A runs s0 points, B s1, A s2, ...). Engine 'stress' (thorough only): real preemption with a 1e-6 s switch interval. "
         "Non-trivial = >= 2 workers/threads with >= 2 tasks sharing one model, a drawn order different from "
         "submission order, or a fractional limit / upsample > 1.")
 TOLERANCES = {"loads/align/score/landscape/apply": "bitwise", "average": "1e-6 * range (reduction order)"}
@@ -347,6 +347,41 @@ def judge_preempt(d):
     return out
 
 
+def judge_alternate(d):
+    """Several hand-overs: the two tasks alternate according to drawn point budgets (A runs s0 points, B s1, A s2, ...)."""
+    out = []
+    events = ("call", "return", "line") if d["gran"] == "line" else ("call", "return")
+    alt = sched.Alternating(_pkgdir(), events=events)
+    loader_level = d["ops"][0].startswith("ld-")
+    with warnings.catch_warnings():
+        warnings.simplefilter("ignore")
+        make, want, ops = (_preempt_setup_loader if loader_level else _preempt_setup_model)(d)
+        tag = f"{d['model']} ops={ops} K={1 + len(d['rots'])} shape={tuple(d['shape'])} gran={d['gran']} cold={d['cold']}"
+        handovers = 0
+        for segs in d["seglists"]:
+            if d["cold"]:
+                sched.clear_lru_caches()
+            fa, fb = make()
+            ra, rb, stt = alt.run(fa, fb, segs)
+            handovers = max(handovers, sum(1 for t in stt["trace"] if t[2] == "parked"))
+            where = [t[3] for t in stt["trace"] if t[2] == "parked"][:6]
+            for i, (status, val) in enumerate((ra, rb)):
+                if status == "err":
+                    import traceback
+                    tb = traceback.extract_tb(val.__traceback__)
+                    w = [f"{f.filename.split('/')[-1]}:{f.name}" for f in tb if "/acryo/" in f.filename]
+                    if not w:
+                        raise HarnessError("".join(traceback.format_exception(val)))
+                    out.append(viol(f"C10/error-under-alternation:{type(val).__name__}", f"{tag}: task {'AB'[i]} raised {type(val).__name__}: {val} at {w[-1]} "
+                                    f"under budgets {segs} (parked at {where})"))
+                elif not np.array_equal(np.asarray(val), np.asarray(want[i]), equal_nan=True):
+                    out.append(viol("C10/result-under-alternation", f"{tag}: task {'AB'[i]} differs from its sequential result under budgets {segs} (parked at {where})"))
+            if out:
+                break
+        d["_handovers"] = handovers
+    return out
+
+
 def judge_shape(d):
     from acryo import SubtomogramLoader, Molecules
 
@@ -481,6 +516,15 @@ def preempt_cases(draw, stride_max=40):
     return d
 
 
+@st.composite
+def alternate_cases(draw):
+    d = draw(preempt_cases())
+    d.pop("stride"), d.pop("offset")
+    budget = st.integers(1, 120 if d["gran"] == "line" else 50)
+    d["seglists"] = [draw(st.lists(budget, min_size=2, max_size=8)) for _ in range(draw(st.integers(4, 10)))]
+    return d
+
+
 def all_preemption_points(tier):
     """every line-level preemption point of task A, for each model and each pair of equal operations (4 residue classes each)."""
     shapes = [[6, 6, 6]] if tier == "quick" else [[6, 6, 6], [5, 6, 7]]
@@ -541,6 +585,10 @@ def engines():
                nontrivial=lambda d: d.get("_nrun", 1) >= 1,
                labels=lambda d: [f"model:{d['model']}", f"gran:{d['gran']}", "cold" if d["cold"] else "warm", f"K:{1 + len(d['rots'])}"] + [f"op:{o}" for o in d["ops"]],
                cases={"quick": 24, "thorough": 800}, shards={"quick": 12, "thorough": 16}, shrink={"quick": False, "thorough": False}),
+        Engine("alternate", judge_alternate, strategy=alternate_cases(),
+               nontrivial=lambda d: d.get("_handovers", 2) >= 2,
+               labels=lambda d: [f"model:{d['model']}", f"gran:{d['gran']}", "cold" if d["cold"] else "warm"] + [f"op:{o}" for o in d["ops"]],
+               cases={"quick": 48, "thorough": 2400}, shards={"quick": 12, "thorough": 16}, shrink={"quick": False, "thorough": False}),
         Engine("lazy-shape", judge_shape, strategy=shape_cases(),
                nontrivial=lambda d: d["upsample"] > 1 or any(abs(m - round(m)) > 1e-9 for m in d["max_shifts"]),
                labels=lambda d: [f"model:{d['model']}", f"upsample:{d['upsample']}", f"form:{d['ms_form']}", "multi" if d["multi"] else "single", f"K:{1 + len(d['rots'])}"],
